@@ -179,11 +179,14 @@ func (x *ProtoSerializer) MarshalBinaryTo(pool *FramePool, message proto.Message
 		return nil, ErrUnknownMessageType
 	}
 
-	// UseCachedSize lets MarshalAppend reuse the size computed here instead
-	// of traversing the message a second time.
+	// The size is computed afresh (proto.Size also refreshes the sizes cached
+	// on the message and its sub-messages); UseCachedSize then lets
+	// MarshalAppend reuse them instead of traversing the message a second
+	// time. Asking for the size WITH UseCachedSize would return the value
+	// cached by an earlier marshal of the same message, stale once the message
+	// has been modified in between.
+	protoSize := proto.Size(message)
 	opts := proto.MarshalOptions{UseCachedSize: true}
-
-	protoSize := opts.Size(message)
 	totalLen := 4 + 4 + nameLen + protoSize
 
 	var out []byte
@@ -309,11 +312,14 @@ func (x *ProtoSerializer) MarshalBinaryWithMetadataTo(pool *FramePool, message p
 	}
 	metaLen := len(metaBytes)
 
-	// UseCachedSize lets MarshalAppend reuse the size computed here instead
-	// of traversing the message a second time.
+	// The size is computed afresh (proto.Size also refreshes the sizes cached
+	// on the message and its sub-messages); UseCachedSize then lets
+	// MarshalAppend reuse them instead of traversing the message a second
+	// time. Asking for the size WITH UseCachedSize would return the value
+	// cached by an earlier marshal of the same message, stale once the message
+	// has been modified in between.
+	protoSize := proto.Size(message)
 	opts := proto.MarshalOptions{UseCachedSize: true}
-
-	protoSize := opts.Size(message)
 	totalLen := 4 + 4 + nameLen + 4 + metaLen + protoSize
 
 	var out []byte
